@@ -37,6 +37,7 @@ class Ctx(object):
         self.last_body = None
         self.identity_ok = True
         self.outcomes = []
+        self.depth = 0
 
 
 def make_spy(inner):
@@ -208,6 +209,19 @@ class Sim(object):
                 kind, v = env.get(st['x'], ('ret', None))
                 if kind == 'exc':
                     raise (v if self.case.get('share') else type(v)('re-raised'))
+            elif op == 'nestedop':
+                # an operation invoked from inside an operation of the same recorder (known finding K6)
+                kls = (self.classes if decorated else self.twins)[st['cls']]
+                saved_obj = ctx.obj
+                try:
+                    env[st['x']] = ('ret', kls().execute(st['script']))
+                except Exception as ex:
+                    env[st['x']] = ('exc', ex)
+                ctx.obj = saved_obj
+            elif op == 'let':
+                env[st['x']] = ('ret', self.ev(env, st['e']))
+            elif op == 'append':
+                env[st['x']][1].append(self.ev(env, st['e']))     # in-place mutation of a value the program holds
             elif op == 'discard':
                 if decorated:
                     tr.discard_recording()
@@ -248,10 +262,12 @@ class Sim(object):
                     if ctx.last_body is not None and ctx.last_body[0] == sname and ctx.last_body[1] is not v:
                         ctx.identity_ok = False
                     env[st['x']] = ('ret', v)
-                    ctx.outcomes.append(['ret', canon(v)])
+                    if ctx.depth == 0:      # calls made by the operation itself (not from inside a wrapped body)
+                        ctx.outcomes.append(['ret', canon(v)])
                 except Exception as ex:
                     env[st['x']] = ('exc', ex)
-                    ctx.outcomes.append(['exc', type(ex).__name__])
+                    if ctx.depth == 0:
+                        ctx.outcomes.append(['exc', type(ex).__name__])
             else:
                 raise ValueError(op)
 
@@ -273,7 +289,11 @@ class Sim(object):
                 env['a%d' % i] = ('ret', a)
             for k, v in kwargs.items():
                 env['kw:' + k] = ('ret', v)
-            r = sim.run_script(sp['body'], env, ctx.obj, decorated)
+            ctx.depth += 1
+            try:
+                r = sim.run_script(sp['body'], env, ctx.obj, decorated)
+            finally:
+                ctx.depth -= 1
             ctx.last_body = (sname, r)
             return r
         return body
@@ -484,6 +504,7 @@ class Sim(object):
             ctx.drawn = 0
             ctx.identity_ok = True
             ctx.outcomes = []
+            ctx.depth = 0
             (tr.enable_recording if run['enabled'] else tr.disable_recording)()
             spy.fail_save = bool(run.get('saveFails', False)) and not run.get('unserRun')
             log0 = len(spy.log)
